@@ -12,6 +12,7 @@ def main():
     before = untracked()
     with tempfile.TemporaryDirectory() as d:
         out = os.path.join(d, "junit.xml")
+        env["TMPDIR"] = d                       # the receiver tests leave 340 MB HDF5 files in the temp directory
         subprocess.run(["/venv/bin/python", "-m", "pytest", "-ra", "-q", "-p", "no:cacheprovider", "--timeout=900",
                         "--continue-on-collection-errors", "--junitxml=" + out], cwd="/repo", env=env,
                        stdout=subprocess.DEVNULL, stderr=subprocess.DEVNULL)
